@@ -37,6 +37,9 @@ package ios
 //vc:  ensures[C15] @guardArmed s.reloadActive
 //vc:func (*State).cancelReload
 //vc:  requires[C11] !isCompareRun
+// the guard counts as cancelled only after the device confirmed the abort: the
+// reply awaited for "reload cancel" is the SHUTDOWN ABORTED banner, not any banner or prompt
+//vc:  assert[C15] at "s.Conn.IssueCmd("#1 @cancelWaitsForAbortConfirmation arg1 == "reload cancel" && arg2 == "--- SHUTDOWN ABORTED ---"
 //vc:  ensures[C15] @guardCancelled !s.reloadActive
 //vc:func (*State).scheduleReload
 //vc:  requires[C11] !isCompareRun
